@@ -9,8 +9,10 @@ package schedsim
 
 import (
 	"fmt"
+	"runtime"
 	"sort"
 	"strings"
+	"sync"
 	"testing"
 	"time"
 
@@ -435,11 +437,11 @@ var model = porcupine.Model{
 // ---------------------------------------------------------------- scheduler
 
 type yieldMsg struct {
-	task    int
-	tag     string
-	done    bool
-	panicV  any
-	site    string
+	task   int
+	tag    string
+	done   bool
+	panicV any
+	site   string
 }
 
 type sched struct {
@@ -447,6 +449,31 @@ type sched struct {
 	toSched chan yieldMsg
 	resume  []chan struct{}
 	counter int
+	// goroutine identity: the harness's tasks register themselves; a goroutine that the code under test spawns
+	// (none in the repository today) becomes a task of its own at its first yield point
+	mu   sync.Mutex
+	gmap map[uint64]int
+}
+
+// goid returns the id of the calling goroutine (parsed from its stack header).
+func goid() uint64 {
+	var buf [40]byte
+	n := runtime.Stack(buf[:], false)
+	// "goroutine 123 [running]:"
+	var id uint64
+	for _, c := range buf[len("goroutine "):n] {
+		if c < '0' || c > '9' {
+			break
+		}
+		id = id*10 + uint64(c-'0')
+	}
+	return id
+}
+
+func (s *sched) resumeCh(i int) chan struct{} {
+	s.mu.Lock()
+	defer s.mu.Unlock()
+	return s.resume[i]
 }
 
 func mkName(s string) enc.Name {
@@ -505,8 +532,14 @@ func (e Engine) Run(t *testing.T, ctx *kit.Ctx, sc *kit.Scenario[Config, Op]) *k
 	return res
 }
 
+// Whether the code under test spawns goroutines is a property of the build: once one has been seen (or while the
+// process is young) the end of a run waits a moment for late ones.
+var sawSpawn bool
+var processRuns int
+
 func (e Engine) runOnce(t *testing.T, ctx *kit.Ctx, sc *kit.Scenario[Config, Op]) *kit.Result {
 	res := &kit.Result{}
+	processRuns++
 	if !configured {
 		cfg := core.DefaultConfig()
 		cfg.Core.LogLevel = "FATAL"
@@ -521,7 +554,9 @@ func (e Engine) runOnce(t *testing.T, ctx *kit.Ctx, sc *kit.Scenario[Config, Op]
 	table.VerifResetGlobals()
 	table.CreateFIBTable(c.Fib)
 	face.VerifResetFaceTable()
-	dispatch.FaceDispatch.Range(func(k, _ any) bool { dispatch.FaceDispatch.Delete(k); return true })
+	for id := uint64(0); id < 1200; id++ { // every face id a scenario can have used (only the exported API, so that the table's representation can change)
+		dispatch.RemoveFace(id)
+	}
 	fib := table.FibStrategyTable
 
 	ntask := max(c.Tasks, 1)
@@ -530,18 +565,27 @@ func (e Engine) runOnce(t *testing.T, ctx *kit.Ctx, sc *kit.Scenario[Config, Op]
 		o := &sc.Ops[i]
 		progs[o.Task%ntask] = append(progs[o.Task%ntask], o)
 	}
-	s := &sched{toSched: make(chan yieldMsg), resume: make([]chan struct{}, ntask)}
+	s := &sched{toSched: make(chan yieldMsg), resume: make([]chan struct{}, ntask), gmap: map[uint64]int{}}
 	for i := range s.resume {
 		s.resume[i] = make(chan struct{})
 	}
 	// what each task is doing (for the overlap rule)
-	inRib := make([]bool, ntask)  // inside a RIB mutator
+	inRib := make([]bool, ntask)      // inside a RIB mutator
 	ribYielded := make([]bool, ntask) // ... and has passed at least one inner yield point
 
 	table.VerifYield = func(tag string) {
-		me := s.cur
+		g := goid()
+		s.mu.Lock()
+		me, ok := s.gmap[g]
+		if !ok {
+			me = len(s.resume)
+			s.resume = append(s.resume, make(chan struct{}))
+			s.gmap[g] = me
+		}
+		ch := s.resume[me]
+		s.mu.Unlock()
 		s.toSched <- yieldMsg{task: me, tag: tag}
-		<-s.resume[me]
+		<-ch
 	}
 	defer func() { table.VerifYield = nil }()
 
@@ -555,7 +599,10 @@ func (e Engine) runOnce(t *testing.T, ctx *kit.Ctx, sc *kit.Scenario[Config, Op]
 	for ti := 0; ti < ntask; ti++ {
 		ti := ti
 		go func() {
-			<-s.resume[ti]
+			s.mu.Lock()
+			s.gmap[goid()] = ti
+			s.mu.Unlock()
+			<-s.resumeCh(ti)
 			defer func() {
 				if p := recover(); p != nil {
 					s.toSched <- yieldMsg{task: ti, done: true, panicV: p, site: kit.PanicSite()}
@@ -643,26 +690,59 @@ func (e Engine) runOnce(t *testing.T, ctx *kit.Ctx, sc *kit.Scenario[Config, Op]
 		alive[i] = true
 	}
 	nalive := ntask
+	// a goroutine spawned by the code under test: grow the per-task state
+	admit := func(ti int, tag string) {
+		for len(alive) <= ti {
+			alive = append(alive, false)
+			blocked = append(blocked, false)
+			parked = append(parked, "")
+			selfHeld = append(selfHeld, false)
+			inRib = append(inRib, false)
+			ribYielded = append(ribYielded, false)
+		}
+		if !alive[ti] {
+			alive[ti] = true
+			nalive++
+		}
+		parked[ti] = strings.TrimSuffix(tag, "+held")
+		blocked[ti] = strings.HasPrefix(tag, "blocked:")
+		ctx.Probe("goroutine-spawned-by-the-code-under-test")
+		sawSpawn = true
+	}
+	baseGoroutines := runtime.NumGoroutine()
 	si := 0
 	rr := 0
 	overlapped := false
 	stuck := 0
-	for nalive > 0 {
+	for {
+		if nalive <= 0 && res.Violation == nil && (sawSpawn || processRuns < 30) && runtime.NumGoroutine() > baseGoroutines-ntask {
+			// a goroutine spawned just before the last task finished may not have reached its first yield point yet
+			select {
+			case m := <-s.toSched:
+				if !m.done {
+					admit(m.task, m.tag)
+				}
+			case <-time.After(20 * time.Millisecond):
+			}
+		}
+		if nalive <= 0 {
+			break
+		}
 		// candidates: alive tasks; prefer ones not known to be blocked
 		var cand []int
-		for i := 0; i < ntask; i++ {
+		for i := 0; i < len(alive); i++ {
 			if alive[i] && !blocked[i] {
 				cand = append(cand, i)
 			}
 		}
 		if len(cand) == 0 {
-			for i := 0; i < ntask; i++ {
+			for i := 0; i < len(alive); i++ {
 				if alive[i] {
 					cand = append(cand, i)
 				}
 			}
 			stuck++
-			if stuck > 4*ntask {
+			if stuck > 4*len(alive) {
 				res.Violation = &kit.Violation{Class: "C16/deadlock", Key: c.Fib, Step: step, Detail: "every unfinished task is blocked on a table lock"}
 				break
 			}
@@ -683,13 +763,46 @@ func (e Engine) runOnce(t *testing.T, ctx *kit.Ctx, sc *kit.Scenario[Config, Op]
 		}
 		s.cur = pick
 		s.counter++
-		s.resume[pick] <- struct{}{}
+		s.resumeCh(pick) <- struct{}{}
 		var msg yieldMsg
-		select {
-		case msg = <-s.toSched:
-		case <-time.After(20 * time.Second):
-			res.Violation = &kit.Violation{Class: "C16/task-stuck", Key: c.Fib, Step: step, Detail: fmt.Sprintf("task %d neither yielded nor finished within 20 s wall (blocked inside a real lock, or spinning)", pick)}
-			nalive = 0
+		gone := false
+		for {
+			wait := 20 * time.Second
+			if pick >= ntask {
+				wait = 150 * time.Millisecond // a spawned goroutine does not say when it ends
+			}
+			timedOut := false
+			select {
+			case msg = <-s.toSched:
+			case <-time.After(wait):
+				timedOut = true
+			}
+			if timedOut {
+				if pick >= ntask {
+					// presumed finished (if it is merely slow it is admitted again at its next yield point)
+					alive[pick] = false
+					nalive--
+					gone = true
+					break
+				}
+				res.Violation = &kit.Violation{Class: "C16/task-stuck", Key: c.Fib, Step: step, Detail: fmt.Sprintf("task %d neither yielded nor finished within 20 s wall (blocked inside a real lock, or spinning)", pick)}
+				nalive = 0
+				gone = true
+				break
+			}
+			if msg.task != pick {
+				// another goroutine reached a yield point while the picked task runs: one that the code under test
+				// spawned (it is parked there and becomes schedulable)
+				admit(msg.task, msg.tag)
+				continue
+			}
+			break
+		}
+		if gone {
+			stuck = 0
+			for i := range blocked {
+				blocked[i] = false
+			}
 			continue
 		}
 		step++
@@ -718,7 +831,7 @@ func (e Engine) runOnce(t *testing.T, ctx *kit.Ctx, sc *kit.Scenario[Config, Op]
 			parked[pick] = base
 			if base == "fib.rlock" || base == "fib.lock" {
 				other, writer := false, -1
-				for i := 0; i < ntask; i++ {
+				for i := 0; i < len(alive); i++ {
 					if i == pick || !alive[i] {
 						continue
 					}
@@ -729,7 +842,7 @@ func (e Engine) runOnce(t *testing.T, ctx *kit.Ctx, sc *kit.Scenario[Config, Op]
 						writer = i
 					}
 				}
-				for i := 0; i < ntask; i++ {
+				for i := 0; i < len(alive); i++ {
 					if i != pick && alive[i] && selfHeld[i] {
 						other = true // a task already found re-entrant is parked at a lock hook while holding the lock
 					}
@@ -773,7 +886,7 @@ func (e Engine) runOnce(t *testing.T, ctx *kit.Ctx, sc *kit.Scenario[Config, Op]
 			ribYielded[pick] = true
 		}
 		n := 0
-		for i := 0; i < ntask; i++ {
+		for i := 0; i < len(alive); i++ {
 			if alive[i] && inRib[i] && ribYielded[i] {
 				n++
 			}
@@ -785,11 +898,11 @@ func (e Engine) runOnce(t *testing.T, ctx *kit.Ctx, sc *kit.Scenario[Config, Op]
 	if res.Violation != nil {
 		// let parked tasks run to completion sequentially so that no goroutine leaks into the next run
 		table.VerifYield = nil
-		for i := 0; i < ntask; i++ {
+		for i := 0; i < len(alive); i++ {
 			if alive[i] {
 				s.cur = i
 				select {
-				case s.resume[i] <- struct{}{}:
+				case s.resumeCh(i) <- struct{}{}:
 				default:
 				}
 			}
@@ -801,7 +914,7 @@ func (e Engine) runOnce(t *testing.T, ctx *kit.Ctx, sc *kit.Scenario[Config, Op]
 				if m.done {
 					nalive--
 				} else {
-					s.resume[m.task] <- struct{}{}
+					s.resumeCh(m.task) <- struct{}{}
 				}
 			case <-deadline:
 				nalive = 0
